@@ -10,7 +10,7 @@ SIZES = {"quick": 6000, "thorough": 120000}
 BATCH = 3000
 RULE = ("[plus a real-parallelism phase: 8 (thorough 20) `storm` cases, 20k (200k) rounds in all, each round = 2-6 goroutines "
         "calling api.Entry for one fresh value at once under GOMAXPROCS>1, their exits, and a sequential probe that must admit exactly "
-        "the threshold] per case 1-4 hotspot rules (mostly MetricType=Concurrency; general threshold from {0,1,1,2,3}, 0-2 specific items with "
+        "the threshold; in every second case each admitted entry is exited by two goroutines at the same moment] per case 1-4 hotspot rules (mostly MetricType=Concurrency; general threshold from {0,1,1,2,3}, 0-2 specific items with "
         "thresholds from {0,1,2,5,-1}; ParamIndex from {0,1,-1,-2,2}, ParamKey '' / k / u incl. the invalid index>0+key combination and "
         "negative thresholds; ParamsMaxCapacity from {0 (=4000),1,2,3,8}; sometimes two rules on one resource, sometimes an inert QPS rule) on "
         "1-3 resources; in 35% of the cases QPS rules (Reject with a generous threshold, Throttling that queues every closely following "
@@ -103,9 +103,17 @@ def mutate_rules(rng, cur, pool, grave=None):
             r[2] = str(rng.choice([0, 1, -1, 2]))
             if r[3] and int(r[2]) > 0:
                 r[3] = ""
-        elif m < 0.52:
+        elif m < 0.49:
             r[1] = {"c": "ct", "ct": "c", "q": "t", "t": "q"}[r[1]]
-        elif m < 0.58:
+        elif m < 0.56:
+            # only the MetricType switches (QPS <-> Concurrency), behaviour / capacity / duration stay: no statistics may be
+            # inherited across that
+            r[1] = {"c": "q", "q": "c", "ct": "t", "t": "ct"}[r[1]]
+            if rng.random() < 0.8:
+                r[5] = "0"
+            if r[1] in ("c", "ct") and rng.random() < 0.7:
+                r[4] = str(rng.choice([1, 1, 2]))
+        elif m < 0.60:
             r[5] = str(rng.choice([0, 1, 2, 3, 8]))
         elif m < 0.80:
             # the twin: same rule looking at another position (or with another threshold), placed before or after
@@ -293,7 +301,7 @@ def storm_cases(ctx):
     per = STORM_ROUNDS[ctx.tier] // ncases
     cases = []
     for i in range(ncases):
-        g = [2, 3, 4, 2, 3, 4, 2, 6][i % 8]
+        g = [2, 3, 4, 2, 3, 4, 2, 3][i % 8]
         thr = rng.choice([1, 1, 2, 3])
         kind = rng.choice(["c", "c", "ct"])
         pmc = rng.choice([0, 0, 1, 2, 8])
@@ -307,7 +315,7 @@ def storm_cases(ctx):
         # some ordinary traffic first (other values, all exited before the storm)
         for k in range(rng.choice([0, 0, 2, 4])):
             ops += [f"entry w{k} r1 s:a", f"exit w{k}"]
-        ops.append(f"storm r1 {rng.choice(['i', 's'])} {g} {per}")
+        ops.append(f"storm r1 {rng.choice(['i', 's'])} {g} {per}" + (" x2" if i % 2 == 1 else ""))
         cases.append(Case(f"storm{ctx.seed}-{i}", ops, tags=("storm", f"g={g}", f"thr={thr}")))
     return cases
 
@@ -315,8 +323,9 @@ def storm_cases(ctx):
 def _storm_phase(ctx, eng):
     cases = storm_cases(ctx)
     eng.check(cases, "storm")
-    ctx.cov["storm"] = {"cases": len(cases), "rounds": sum(int(c.ops[-1].split()[-1]) for c in cases),
-                        "goroutines": sorted({int(c.ops[-1].split()[-2]) for c in cases})}
+    ctx.cov["storm"] = {"cases": len(cases), "rounds": sum(int(c.ops[-1].split()[4]) for c in cases),
+                        "goroutines": sorted({int(c.ops[-1].split()[3]) for c in cases}),
+                        "double_exit_cases": sum(1 for c in cases if c.ops[-1].endswith(" x2"))}
 
 
 def run(ctx):
